@@ -7,12 +7,14 @@ import (
 
 	"verifharness/internal/b2f"
 	"verifharness/internal/mbox"
+	"verifharness/internal/msgh"
 	"verifharness/internal/posrep"
 	"verifharness/internal/urlh"
 )
 
 var cmds = map[string]func([]string) int{
 	"mbox":          mbox.Main,
+	"body":          msgh.MainBody,
 	"b2f-c01":       b2f.MainC01,
 	"b2f-c02":       b2f.MainC02,
 	"b2f-c04":       b2f.MainC04,
